@@ -123,6 +123,10 @@ def shard(shard_i, nshards, payload):
                     ib = [k for k, (x, y) in enumerate(zip(decls, fb[2])) if x != y]
                     if not ia or not ib or set(ia) & set(ib):
                         continue
+                    if "plain-twin" in fa[1] and "plain-twin" in fb[1]:
+                        # each of the two makes the global of one configuration plain: together no constant global is left
+                        # and the plain externals are right
+                        continue
                     m = list(fa[2])
                     for k in ib:
                         m[k] = fb[2][k]
